@@ -151,7 +151,7 @@ check("C17",
 check("C15",
       "Intervals.tla: Inter_Alg transcribes the running pairwise construction of FeatureDB.interfeatures (re-used dictionary, seqid change, empty-gap suppression), Inter_Decl "
       "states C15 as a comprehension over consecutive pairs; Introns_Decl / Splice_Decl build on the import model's Children. TLC checks Inter_Alg = Inter_Decl and the N-1 law "
-      "for every ordered list of <= 3 (quick) / 4 (thorough) intervals over 6 positions x 6 seqid/strand/type patterns x 4 option sets (234k states quick); one case in 7/3 is "
+      "for every ordered list of <= 3 (quick) / 4 (thorough) intervals over 6 positions x 7 seqid/strand/type patterns x 4 option sets (234k states quick); one case in 7/3 is "
       "replayed through interfeatures (geometry, type, strand, per-key sorted attribute union with numeric sort, joined IDs, update_attributes, inputs and database unchanged); "
       "random gene models go through create_introns / create_splice_sites against the spec (Gen_Intervals).",
       TB + "Only the columns and attributes the statement names are compared; transcripts are visited in unspecified order (multiset comparison).",
